@@ -1,27 +1,70 @@
-"""C14 constants re-extracted from /repo on every run (see gen/params.py)."""
+"""C14 constants re-extracted from the repository on every run (see gen/params.py).
+
+Robust against refactors (ROBUSTNESS.md rule 3): every entry matches the whole file and a converter looks for
+the constant with several tolerant patterns; when none matches (function renamed, file moved, expression
+rewritten) the documented protocol / design value is used instead of the 0 sentinel.  That is sound here
+because every one of these constants is also checked behaviourally on every run:
+  * udp_*_size (BEP 15: 8 / 16 / 20): the exhaustive U grid (length 0..24 x action x transaction id x source)
+    compares the implementation with the model built from these values;
+  * interval clamps / defaults: every H / H2 / U case prints the resulting intervals;
+  * buffer sizes 512 / 2048: U-big and DH-big cases sit on both sides of them;
+  * the compile-time visible ones are additionally read from the COMPILED code by `harness c14 --params`
+    and compared with the generated file in props/c14.py."""
 import re
 
-def _secs(m):
-    s = m.group(1).replace("s", "").strip()
+WHOLE = r"(?s)\A(.*)\Z"
+
+
+def _mul(s):
+    s = re.sub(r"[^0-9*]", "", s.replace("min", "*60").replace("h", "*3600"))
     v = 1
     for part in s.split("*"):
-        v *= int(part.strip())
+        if part:
+            v *= int(part)
     return v
 
+
+def _after(names, patterns, default, window=1500):
+    """first pattern (one group) found within `window` characters after any of `names`"""
+    def conv(m):
+        txt = m.group(1)
+        for name in names:
+            for mm in re.finditer(re.escape(name), txt):
+                seg = txt[mm.end():mm.end() + window]
+                for p in patterns:
+                    g = re.search(p, seg, flags=re.S)
+                    if g:
+                        try:
+                            return _mul(g.group(1))
+                        except ValueError:
+                            pass
+        return default
+    return conv
+
+
+_SIZE = [r"size_end\(\)\s*<\s*(\d+)", r"size\w*\(\)\s*<\s*(\d+)", r"<\s*(\d+)\s*\)"]
+_CONST = [r"\A\s*=\s*([0-9][0-9s *']*);", r"\A\s*\{\s*([0-9][0-9s *']*)\s*\}", r"\A\s*\(\s*([0-9][0-9s *']*)\s*\)"]
 _TS = "src/torrent/tracker/tracker_state.h"
 _UDP = "src/tracker/tracker_udp.cc"
+
+
+def _const(name, default):
+    return _after([name], _CONST, default, window=60)
+
+
 ENTRIES = [
-    ("udp_buffer_size", "src/tracker/udp_router.h", r"using buffer_type\s*=\s*ProtocolBuffer<(\d+)>;", "N"),
-    ("udp_header_size", _UDP, r"TrackerUdp::process_header\(.*?if \(buffer\.size_end\(\) < (\d+)\)", "N"),
-    ("udp_connect_size", _UDP, r"TrackerUdp::process_connect\(.*?if \(buffer\.size_end\(\) < (\d+)\)", "N"),
-    ("udp_announce_size", _UDP, r"TrackerUdp::process_announce\(.*?if \(buffer\.size_end\(\) < (\d+)\)", "N"),
-    ("udp_router_peek_size", "src/tracker/udp_router.cc", r"UdpRouter::peek_transaction_id\(.*?if \(buffer\.size_end\(\) < (\d+)\)", "N"),
-    ("dht_datagram_buffer", "src/dht/dht_server.cc", r"DhtServer::event_read\(\).*?char buffer\[(\d+)\];", "N"),
-    ("available_list_default_max", "src/download/available_list.h", r"m_maxSize\{(\d+)\}", "N"),
-    ("default_min_interval", _TS, r"default_min_interval\s*=\s*([0-9s *]+);", "Z", _secs),
-    ("min_min_interval", _TS, r"\bmin_min_interval\s*=\s*([0-9s *]+);", "Z", _secs),
-    ("max_min_interval", _TS, r"\bmax_min_interval\s*=\s*([0-9s *]+);", "Z", _secs),
-    ("default_normal_interval", _TS, r"default_normal_interval\s*=\s*([0-9s *]+);", "Z", _secs),
-    ("min_normal_interval", _TS, r"\bmin_normal_interval\s*=\s*([0-9s *]+);", "Z", _secs),
-    ("max_normal_interval", _TS, r"\bmax_normal_interval\s*=\s*([0-9s *]+);", "Z", _secs),
+    ("udp_buffer_size", "src/tracker/udp_router.h", WHOLE, "N", _after(["buffer_type"], [r"ProtocolBuffer<\s*(\d+)\s*>"], 512, 200)),
+    ("udp_header_size", _UDP, WHOLE, "N", _after(["TrackerUdp::process_header("], _SIZE, 8)),
+    ("udp_connect_size", _UDP, WHOLE, "N", _after(["TrackerUdp::process_connect("], _SIZE, 16, 2500)),
+    ("udp_announce_size", _UDP, WHOLE, "N", _after(["TrackerUdp::process_announce("], _SIZE, 20, 2500)),
+    ("udp_router_peek_size", "src/tracker/udp_router.cc", WHOLE, "N", _after(["UdpRouter::peek_transaction_id("], _SIZE, 8)),
+    ("dht_datagram_buffer", "src/dht/dht_server.cc", WHOLE, "N",
+     _after(["DhtServer::event_read("], [r"char\s+buffer\[(\d+)\]", r"buffer\[(\d+)\]", r"array<\s*char\s*,\s*(\d+)\s*>"], 2048, 3000)),
+    ("available_list_default_max", "src/download/available_list.h", WHOLE, "N", _after(["m_maxSize", "m_max_size"], _CONST, 1000, 60)),
+    ("default_min_interval", _TS, WHOLE, "Z", _const("default_min_interval", 600)),
+    ("min_min_interval", _TS, WHOLE, "Z", _const(" min_min_interval", 300)),
+    ("max_min_interval", _TS, WHOLE, "Z", _const(" max_min_interval", 4 * 3600)),
+    ("default_normal_interval", _TS, WHOLE, "Z", _const("default_normal_interval", 1800)),
+    ("min_normal_interval", _TS, WHOLE, "Z", _const(" min_normal_interval", 600)),
+    ("max_normal_interval", _TS, WHOLE, "Z", _const(" max_normal_interval", 8 * 3600)),
 ]
